@@ -12,12 +12,13 @@ META = {
                  "lopdf (get_font_encoding + decode_text); recorded lopdf decodings of random tables are judged by Trace_CMap",
     "text": "TLC enumerates every sequence of up to 3 bfchar/bfrange definitions (one-unit, multi-unit and array targets, every "
             "overlap / adjacency / order pattern, equal values on touching ranges) over small code spaces and checks that the "
-            "interval-map model of ToUnicodeCMap refines 'the last covering definition wins' - as repaired it does, as the code is "
-            "it has exactly the listed counter-example classes. Each enumerated CMap is emitted as program text with the text the "
+            "interval-map model of ToUnicodeCMap refines 'the last covering definition wins' - as the code is (since the fix: "
+            "commit that stores the base of every definition) it does; with the repaired defects seeded back into the model it "
+            "has exactly the four former counter-example classes. Each enumerated CMap is emitted as program text with the text the "
             "declarative layer defines, stored as the ToUnicode stream of a font and decoded by lopdf code by code and as one "
             "string. Seeded random tables (1-4 byte codes incl. 00000000/FFFFFFFF, astral and multi-unit targets, arrays, up to "
-            "250 entries, random sectioning, hex case and white-space) are decoded by lopdf and judged by TLC with the declarative "
-            "layer only.",
+            "250 entries, random sectioning, hex case and white-space incl. the PostScript-legal array spellings) are decoded "
+            "by lopdf and judged by TLC with the declarative layer only.",
     "note": "Trusted: TLC, CMap!Lookup/Text as a reading of ISO 32000-1 9.10.3, the harness's renderer (its output is what the "
             "trace spec judges: the logged definition list is the rendered one). Exhaustive only within the model bounds "
             "(<=3 definitions, <=4 codes per length, lengths 1-3); beyond that sampled. The BOM sniffing of the final UTF-16 "
@@ -28,6 +29,9 @@ META = {
 CLASSES_REQUIRED = ["single.plain", "multi.plain", "array.plain", "single.split", "multi.split", "array.split",
                     "multi.coalesce", "array.coalesce"]
 MC_ACTIONS = ["AddChar", "AddRangeStr", "AddRangeArr"]
+# classes of the repaired defects (fix: 3c7db25 range base, 4a2d879 BOM); none is a known finding any more, they only
+# name a regression
+FORMER_INTERVAL = {"multi.split", "multi.coalesce", "array.split", "array.coalesce"}
 
 
 def hexs(bs):
@@ -57,6 +61,10 @@ def pick_sig(chk, cls, suffix=""):
     for p in parts:
         if "C15:" + p + suffix in chk.known:
             return "C15:" + p + suffix
+    # a code whose interval class never was a finding but whose target starts with a byte order mark: the (repaired)
+    # BOM sniffing is the narrower name
+    if "text.bom" in parts[1:] and parts[0] not in FORMER_INTERVAL and not suffix:
+        return "C15:text.bom"
     return "C15:" + parts[0] + suffix
 
 
@@ -78,7 +86,7 @@ def judge_replay(chk, cases, results, cover):
             raise vlib.ToolError("replay result has %d codes, case has %d" % (len(r["per"]), len(c["c"])))
         bad = 0
         for i, code in enumerate(c["c"]):
-            g, exp, cls, model = r["per"][i], c["e"][i], c["k"][i], c["m"][i]
+            g, exp, cls, model, old = r["per"][i], c["e"][i], c["k"][i], c["m"][i], c["o"][i]
             cover[cls] = cover.get(cls, 0) + 1
             if g["p"] == 0 and g["chars"] == exp:
                 if model != exp:
@@ -86,7 +94,10 @@ def judge_replay(chk, cases, results, cover):
                 continue
             bad += 1
             gv = got_value(g)
-            chk.violation(pick_sig(chk, cls, "" if gv == model else ".unmodelled"), {"defs": defs, "code": hexs(code), "expected_chars": exp, "lopdf": gv,
+            # the plain class signature only when lopdf's wrong answer is the one the impl-shaped layer predicts as the
+            # code is, or the one the repaired defect of that class produced (a regression)
+            exact = gv == model or (gv == old and cls.split("+")[0] in FORMER_INTERVAL)
+            chk.violation(pick_sig(chk, cls, "" if exact else ".unmodelled"), {"defs": defs, "code": hexs(code), "expected_chars": exp, "lopdf": gv,
                                 "lopdf_msg": g["msg"], "model_as_code_is": model, "program": c["t"]})
         w = r["whole"]
         if not (w["p"] == 0 and w["chars"] == c["w"]):
@@ -114,7 +125,7 @@ def mc_emit(chk, cfg, tier, w, cover):
     results = read_ndjson(cout)
     if len(results) != len(cases):
         raise vlib.ToolError("replay lost cases")
-    # the model "as the code is" must deviate from the declarative layer exactly in the known classes
+    # deviations of the model "as the code is" from the declarative layer, by class (none since the repairs)
     dev = {}
     for c in cases:
         for e, m, k in zip(c["e"], c["m"], c["k"]):
@@ -147,7 +158,8 @@ def run(tier):
     fixed = ["MC_CMap_quick_fixed.cfg", "MC_CMap_quick2_fixed.cfg"] + ([] if quick else ["MC_CMap_thorough_fixed.cfg", "MC_CMap_thorough4_fixed.cfg", "MC_CMap_thorough3_fixed.cfg"])
 
     vlib.build_harness("c15")
-    # (M) "as repaired": Refines holds - these runs print nothing, so they go to the background
+    # (M) the same models without Emit (kept from before the repair, when the *_asis cfgs had the deviations on):
+    # Refines holds - these runs print nothing, so they go to the background
     pool = ThreadPoolExecutor(max_workers=2)
     fut = [pool.submit(mc_plain, cfg, tier) for cfg in fixed]
     # (V) recording runs in the background as well
@@ -155,7 +167,7 @@ def run(tier):
     tr = os.path.join(w, "trace.ndjson")
     frec = pool.submit(run_bin, "c15", ["record", "--seed", vlib.seed(), "--n", n, "--out", tr])
 
-    # (M)+(G) "as the code is": every counter-example of the model lies in a listed class; all cases replayed
+    # (M)+(G) "as the code is" (Dev_h34 = Dev_h35 = FALSE since the repair): Refines holds; all cases replayed
     cover = {}
     for cfg in asis:
         mc_emit(chk, cfg, tier, w, cover)
@@ -165,19 +177,18 @@ def run(tier):
         raise vlib.ToolError("vacuous: no generated code of class %s" % missing)
     chk.extra["replayed_codes_by_class"] = dict(sorted(cover.items()))
     mdev = chk.extra.get("model_counterexamples_by_class", {})
-    for k in ["multi.split", "multi.coalesce", "array.split", "array.coalesce"]:
-        if mdev.get(k, 0) == 0:
-            raise vlib.ToolError("vacuous: the model as the code is has no counter-example of class %s" % k)
+    if mdev:
+        raise vlib.ToolError("the model as the code is deviates from the declarative layer: %s" % mdev)
 
-    # (M) the expected counter-example: strict Refines on the model as the code is must fail, in a listed class
+    # (M) negative control of Refines: with the repaired defects seeded back into the model (MC_CMap_cex: Dev_h34,
+    # Dev_h35 on) strict Refines must fail, in one of the four former classes
     r = tlc("MC_CMap.tla", "MC_CMap_cex.cfg", workers=1, allow_violation=True, timeout=600)
     cex = r.tagged("CEX")
     if r.violation != "RefinesCex" or not cex:
-        raise vlib.ToolError("model as the code is: expected counter-example to Refines not found (%s)" % r.violation)
-    listed = {"multi.split", "multi.coalesce", "array.split", "array.coalesce"}
-    if not set(cex[0]["k"]) <= listed:
-        raise vlib.ToolError("model counter-example outside the listed classes: %s" % cex[0])
-    chk.extra["expected_counterexample"] = {"defs": [show_def(d) for d in cex[0]["d"]], "classes": cex[0]["k"]}
+        raise vlib.ToolError("model with the repaired defects seeded back: expected counter-example to Refines not found (%s)" % r.violation)
+    if not set(cex[0]["k"]) <= FORMER_INTERVAL:
+        raise vlib.ToolError("model counter-example outside the former classes: %s" % cex[0])
+    chk.extra["seeded_defect_counterexample"] = {"defs": [show_def(d) for d in cex[0]["d"]], "classes": cex[0]["k"]}
     chk.add_tlc(r)
 
     for f in fut:
